@@ -20,7 +20,8 @@ Terms are nested tuples (hashable):
 """
 import ast
 
-from .core import (Interp, TupleV, Closure, FuncRef, ClassRef, ExtRef, ObjV, BoundMethod, SuperV, SliceV, Ctx, PartialV)
+from .core import (Interp, TupleV, Closure, FuncRef, ClassRef, ExtRef, ObjV, BoundMethod, SuperV, SliceV, Ctx, PartialV, StaticV, KwV, ARGS, is_static)
+GENERIC_VALUES = (TupleV, Closure, FuncRef, ClassRef, ExtRef, ObjV, BoundMethod, SuperV, SliceV, PartialV)
 from .loader import Inconclusive, norm, dotted_of
 
 NONE = ("const", None)
@@ -69,6 +70,10 @@ def T(v):
         return ("bound", T(v.obj), v.func.qname)
     if isinstance(v, SuperV):
         return ("super", v.cls)
+    if isinstance(v, StaticV):
+        return ("const", v.value)
+    if isinstance(v, KwV):
+        return ("dict", tuple((("const", k), T(x)) for k, x in v.items.items()))
     if v is None:
         return NONE
     return v
@@ -386,7 +391,52 @@ class Sym(Interp):
                   kwargs={k: T(v) for k, v in kwargs.items()}, callkind="opaque", result=t, rawargs=list(args))
         return t
 
-    def call_repo(self, func, selfobj, args, kwargs, n, env, ctx):
+    BENIGN_WRAPS = {"numpy.asarray", "numpy.asanyarray", "numpy.array", "numpy.copy", "copy.deepcopy", "copy.copy", "dict", "list", "tuple"}
+
+    def unwrap_param(self, t):
+        """param under conversions that keep its value: asarray(p), p.copy(), dict(p or {}), p or {} ... -> ('param', p) | None"""
+        for _ in range(6):
+            if isinstance(t, tuple) and len(t) == 2 and t[0] == "param":
+                return t
+            if isinstance(t, tuple) and len(t) == 4 and t[0] == "ext" and t[1] in self.BENIGN_WRAPS and len(t[2]) == 1 and not t[3]:
+                t = t[2][0]
+            elif isinstance(t, tuple) and len(t) == 5 and t[0] == "method" and t[2] == "copy" and not t[3] and not t[4]:
+                t = t[1]
+            elif isinstance(t, tuple) and len(t) == 3 and t[0] == "bool" and t[1] == "or" and len(t[2]) == 2 and t[2][1] in (("dict", ()), ("list", ()), ("tuple", ()), ("const", None)):
+                t = t[2][0]
+            else:
+                return None
+        return None
+
+    def h_raw_entry_args(self, func, args, kwargs, n, ctx):
+        """Symbolic rules are written against the function's own parameters.  Behind a decorator the function receives what
+        the wrapper passes: a parameter under a value-keeping conversion counts as that parameter (in whichever slot it
+        arrives - a wrong slot is what DECOR.slots and the rules then report); anything else is a transformation the symbolic
+        rules do not read through, and the other analyses (zero pattern, ownership, randomness) decide what they can."""
+        def norm_arg(a):
+            if isinstance(a, tuple) and len(a) == 2 and a[0] == "*":
+                raise Inconclusive("the decorator of %s forwards a starred value the analysis cannot take apart" % func.name, n)
+            if isinstance(a, GENERIC_VALUES):
+                return a
+            t = T(a)
+            p_ = self.unwrap_param(t)
+            if p_ is not None:
+                return p_
+            if isinstance(t, tuple) and t and t[0] in ("const", "self"):
+                return a
+            raise Inconclusive("the decorator of %s hands it %s instead of the caller's argument: the symbolic rules do not read through this "
+                               "transformation" % (func.name, fmt(t)[:80]), n)
+        return [norm_arg(a) for a in args], {k: norm_arg(v) for k, v in kwargs.items()}
+
+    def call_decorated(self, func, selfobj, args, kwargs, n, env, ctx):
+        # compositional: a decorated function that is not inlined stays the uninterpreted call `f(args)` for its callers (its own
+        # obligations - including what the decorator does - are decided where it is analysed as an entry point)
+        from .core import DECORATED_ENTRIES
+        if self._entry_bind != func.qname and not self.inline(func) and func.qname not in self.force_interpret:
+            return self.call_repo_raw(func, selfobj, args, kwargs, n, env, ctx)
+        return super().call_decorated(func, selfobj, args, kwargs, n, env, ctx)
+
+    def call_repo_raw(self, func, selfobj, args, kwargs, n, env, ctx):
         # the fact lists the arguments in the callee's parameter order, however the caller spelled the call (keywords that
         # continue the positional prefix are moved into it)
         pp = func.posparams[1:] if func.is_method else func.posparams
@@ -397,8 +447,9 @@ class Sym(Interp):
         f = self.fact("call", ctx, n, env, target=func.qname, args=cargs,
                       kwargs=ckw, callkind="repo", result=None, rawargs=list(args),
                       selfobj=selfobj)
-        if self.inline(func) and func.qname not in ctx.stack and not getattr(func, "cached", False):     # a memoised function is not a transparent helper
-            r = super().call_repo(func, selfobj, args, kwargs, n, env, ctx)
+        from .core import DECORATED_ENTRIES
+        if (self.inline(func) or func.qname in self.force_interpret) and func.qname not in ctx.stack and not getattr(func, "cached", False):     # a memoised function is not a transparent helper
+            r = super().call_repo_raw(func, selfobj, args, kwargs, n, env, ctx)
             f.result = T(r) if r is not None else NONE
             self.propagate_inplace(func, n, env, ctx)
             return r
@@ -571,9 +622,11 @@ class Sym(Interp):
     # ------------------------------------------------------------------ control flow with conditions
     def st_If(self, s, env, ctx):
         tv = self.ev(s.test, env, ctx)
+        if is_static(tv):
+            return self.exec_block(s.body if self.static_truth(tv) else s.orelse, env, ctx)
         self.h_test(tv, s.test, "if", env, ctx)
-        e1 = self.h_assume(tv, s.test, True, dict(env), ctx)
-        e2 = self.h_assume(tv, s.test, False, dict(env), ctx)
+        e1 = self.h_assume(tv, s.test, True, self.fork_env(env), ctx)
+        e2 = self.h_assume(tv, s.test, False, self.fork_env(env), ctx)
         o1 = self.exec_block(s.body, e1, ctx) if e1 is not None else None
         o2 = self.exec_block(s.orelse, e2, ctx) if e2 is not None else None
         return self.phi_env(T(tv), o1, o2)
@@ -633,6 +686,12 @@ class Sym(Interp):
         return out
 
     def _loop(self, s, env, ctx, is_for):
+        if is_for and self.static_rooted(s.iter, env, ctx):
+            itv0 = self.ev(s.iter, env, ctx)
+            if isinstance(itv0, KwV):
+                itv0 = TupleV([StaticV(k) for k in itv0.items], ARGS)
+            if isinstance(itv0, TupleV) and itv0.kind == ARGS:
+                return self._unrolled(s, list(itv0.items), env, ctx)
         lid = ("loop", getattr(s, "lineno", 0), ctx.qname)
         nfacts = len(self.facts)
         order = self._order
